@@ -72,12 +72,8 @@ func (ex *Exec) evalClause(st *State, fr *Frame, c *Clause, extra map[string]*Va
 
 func (ex *Exec) envFor(st *State, fr *Frame, extra map[string]*Val) *Env {
 	env := &Env{ex: ex, cur: st, old: ex.pre, vars: map[string]*Val{}, fr: fr}
-	if fr != nil {
-		for h, s0 := range ex.loopEntry {
-			if h.Parent() == fr.fn {
-				env.loopEntry = s0
-			}
-		}
+	if fr != nil && ex.evalLoop != nil {
+		env.loopEntry = ex.loopEntry[ex.evalLoop]
 	}
 	if fr != nil && fr.fn.Pkg != nil {
 		env.pkg = fr.fn.Pkg.Pkg
@@ -731,10 +727,8 @@ func (env *Env) call(e *Expr) *Val {
 			env.fail("iterstart() outside a loop clause")
 		}
 		var stt *State
-		for h, s0 := range env.ex.iterStart {
-			if h.Parent() == env.fr.fn {
-				stt = s0
-			}
+		if env.ex.evalLoop != nil {
+			stt = env.ex.iterStart[env.ex.evalLoop]
 		}
 		if stt == nil {
 			env.fail("iterstart(): no loop iteration in progress")
